@@ -100,6 +100,22 @@ func runC08(c *Ctx) {
 			unframeable = fmt.Sprintf("packet %d cut after %d of %d bytes, then client EOF", k, cut, len(full.Bytes))
 		}
 	}
+	textFramed := ""
+	if unframeable == "" && p.Transport == "ws" && c.T.Bool(1, 8) {
+		// a well-formed packet that arrives in a websocket TEXT message: text messages carry no
+		// packet data, the stream ends there and the packet has no effect
+		k := 1 + c.T.Choose(len(p.Pkts))
+		var inner CPkt
+		if k < len(p.Pkts) {
+			inner = p.Pkts[k]
+		} else {
+			inner = PData([]byte("text-framed"))
+		}
+		bad := CPkt{Kind: KUnframeable, Bytes: inner.Bytes, Wire: codec.WSFrame(true, 1, inner.Bytes, [4]byte{9, 8, 7, 6})}
+		p.Pkts = append(append(append([]CPkt{}, p.Pkts[:k]...), bad), p.Pkts[k:]...)
+		textFramed = fmt.Sprintf("packet %d (%s) sent as a websocket TEXT message", k, inner)
+		unframeable = textFramed
+	}
 	var ends []int
 	tot := 0
 	for _, pk := range p.Pkts {
@@ -191,6 +207,11 @@ func runC08(c *Ctx) {
 		sp = segPlan{"all-in-one", [][2]int{{0, tot}}}
 	}
 	p.Segs = sp.segs
+	if textFramed != "" {
+		// one transport message per packet, so that the TEXT message is a message of its own
+		p.Segs = nil
+		sp.kind = "one-per-message (with a TEXT message)"
+	}
 	p.Stream = c.T.Bool(1, 2) // TCP-level re-segmentation on top
 	if p.Transport == "legacy" && c.T.Bool(1, 3) {
 		// the client ends the request body after its last byte (also after a packet it never
